@@ -103,7 +103,7 @@ def check(ctx):
     engine_obligations(ctx, repo, "R1", "R2", "R3", "R4")
     # lock discipline of the two queues (lexical): every mutation of the send queue / handler list inside `with self._lock`
     n_mut = 0
-    for fi in repo.cls(SOCK).methods.values():
+    for fi in repo.all_methods(SOCK).values():
         if fi.name == "__init__":
             continue
         for n in walk_no_nested(fi.node):
